@@ -116,7 +116,11 @@ func mismatchSig(m Mismatch) string {
 			uniq = append(uniq, x)
 		}
 	}
-	return fmt.Sprintf("%s differs from the reference model (expected causes: %s)", m.Aspect, strings.Join(uniq, ","))
+	extra := ""
+	if m.Admission {
+		extra = ", conversion executed although not admissible (or the reverse)"
+	}
+	return fmt.Sprintf("%s differs from the reference model (expected causes: %s%s)", m.Aspect, strings.Join(uniq, ","), extra)
 }
 
 func (c *refineCheck) Run(env *Env, sc *Scenario) (*Violation, error) {
@@ -153,7 +157,7 @@ func (c *refineCheck) Run(env *Env, sc *Scenario) (*Violation, error) {
 			env.Stats.Seen(k)
 		}
 		for _, m := range mr.Mismatches {
-			if m.Owner() != c.id {
+			if !m.OwnedBy(c.id) {
 				env.Stats.Probe("foreign_mismatch:" + m.Owner())
 				continue
 			}
